@@ -2,12 +2,12 @@
 use std::sync::Arc;
 
 // ---- opaque field types of `Scheduler` (never inspected by the extracted functions) ----
-pub struct CfgEnv { pub disable_nonce_check: bool, pub spec: u8 }
-pub struct BlockNumber(pub u64);
-pub struct BlockEnv { pub beneficiary: Address, pub number: BlockNumber }
+#[derive(Clone, Copy)] pub struct CfgEnv { pub disable_nonce_check: bool, pub spec: u8 }
+#[derive(Clone, Copy)] pub struct BlockNumber(pub u64);
+#[derive(Clone, Copy)] pub struct BlockEnv { pub beneficiary: Address, pub number: BlockNumber }
 #[verifier::external_body] #[verifier::reject_recursive_types(DB)] pub struct ParallelState<DB> { p: core::marker::PhantomData<DB> }
 pub struct DynParallelPrecompile { pub p: u8 }
-pub struct DelegatedSafetyCfg { pub p: u8 }
+pub struct DelegatedSafetyCfg { pub forbid_delegated_create: bool, pub reserve_balance: bool }
 pub struct GrevmConfig { pub force_sequential: bool, pub min_parallel_txs: usize, pub concurrency_level: usize, pub delegated_safety: DelegatedSafetyCfg }
 pub struct ReservePlanner { pub p: u8 }
 #[verifier::external_body] #[verifier::reject_recursive_types(T)] pub struct OnceLock<T> { p: core::marker::PhantomData<T> }
